@@ -62,7 +62,7 @@ def run(ck):
     try:
         ck.write_generated("HashConst.lean", gen_hash.generate(REPO))
     except Exception as e:
-        ck.machinery_error("translator gen_hash failed: %r" % (e,)); return
+        ck.translator_failed("translator gen_hash failed: %r" % (e,))
     if not ck.build_driver(): return
     if not ck.prove(["ZixModel.Properties.C03", "ZixModel.Properties.C03History"]):
         ck.report_proof_failure("theorems about the hash-table model / regenerated constants no longer build")
